@@ -12,8 +12,10 @@ PKG = "graphtage"
 
 
 class CallGraph:
-    def __init__(self, model):
+    def __init__(self, model, dead_calls=()):
         self.m = model
+        self.dead = set(id(c) for c in dead_calls)
+        self._attr_types = {}
         self.by_name = {}
         for f in model.functions.values():
             if f.cls and f.qual == f"{f.cls}.{f.node.name}":
@@ -41,6 +43,45 @@ class CallGraph:
             c[q] = self.m.subclasses(q)
         return c[q]
 
+    def attr_type(self, q, attr):
+        """Project class an instance attribute is annotated with (`self.attr: T = ...`), or None."""
+        key = (q, attr)
+        if key in self._attr_types:
+            return self._attr_types[key]
+        res = None
+
+        def unwrap(ann, mod):
+            for _ in range(4):
+                if isinstance(ann, ast.Constant) and isinstance(ann.value, str):
+                    try:
+                        ann = ast.parse(ann.value, mode="eval").body
+                    except SyntaxError:
+                        return None
+                elif isinstance(ann, ast.Subscript) and dotted(ann.value) in ("Optional", "typing.Optional"):
+                    ann = ann.slice
+                elif isinstance(ann, ast.Subscript):
+                    ann = ann.value
+                else:
+                    break
+            return self.m.resolve_class(mod, ann)
+        for k in self.m.c3(q):
+            mod, c = self.m.classes[k]
+            for n in c.body:
+                if isinstance(n, ast.AnnAssign) and isinstance(n.target, ast.Name) and n.target.id == attr:
+                    res = unwrap(n.annotation, mod)
+            if res:
+                break
+            for n in ast.walk(c):
+                if isinstance(n, ast.AnnAssign) and isinstance(n.target, ast.Attribute) and n.target.attr == attr \
+                        and isinstance(n.target.value, ast.Name) and n.target.value.id == "self":
+                    res = unwrap(n.annotation, mod)
+                    if res:
+                        break
+            if res:
+                break
+        self._attr_types[key] = res
+        return res
+
     def _ctor_targets(self, q):
         out = []
         for name in ("__init__", "__new__", "__post_init__"):
@@ -54,10 +95,15 @@ class CallGraph:
         if f.qual in self._edges:
             return self._edges[f.qual]
         selfc, superc, names, dots, attrs, loads = set(), set(), set(), [], set(), set()
+        called_attr_nodes = set()
         for n in (module_level_nodes(f.node) if isinstance(f.node, ast.Module) else code_nodes(f.node)):
             if isinstance(n, ast.Call):
+                if id(n) in self.dead:
+                    called_attr_nodes.add(id(n.func))
+                    continue
                 fn = n.func
                 if isinstance(fn, ast.Attribute):
+                    called_attr_nodes.add(id(fn))
                     v = fn.value
                     if isinstance(v, ast.Name) and v.id in ("self", "cls"):
                         selfc.add(fn.attr)
@@ -67,11 +113,17 @@ class CallGraph:
                         d = dotted(fn)
                         if d:
                             dots.append((d, fn))
-                        attrs.add(fn.attr)
+                        nargs = len(n.args) if not any(isinstance(a, ast.Starred) for a in n.args) else None
+                        nkw = None if any(k.arg is None for k in n.keywords) else tuple(k.arg for k in n.keywords)
+                        typed = None
+                        if f.cls and isinstance(v, ast.Attribute) and isinstance(v.value, ast.Name) and v.value.id == "self":
+                            typed = self.attr_type(f.cls, v.attr)
+                        attrs.add((fn.attr, nargs, nkw, typed))
             elif isinstance(n, ast.Name) and isinstance(n.ctx, ast.Load):
                 names.add(n.id)
             elif isinstance(n, ast.Attribute) and isinstance(n.ctx, ast.Load):
-                loads.add(n.attr)
+                if id(n) not in called_attr_nodes:
+                    loads.add(n.attr)
                 d = dotted(n)
                 if d:
                     dots.append((d, n))
@@ -139,17 +191,22 @@ class CallGraph:
                         out.add(t)
                         # classmethod factories (from_dict) instantiate cls
                         new.add(base[0][1])
-        for name in attrs:
+        for name, nargs, nkw, typed in attrs:
             for t in self.by_name.get(name, ()):
-                if self._cls_live(t.cls, inst):
-                    out.add(t)
-                    self.unresolved += 1
+                if not self._cls_live(t.cls, inst):
+                    continue
+                if typed is not None and not (m.is_subclass(t.cls, typed) or m.is_subclass(typed, t.cls)):
+                    continue
+                if not arity_ok(t.node, nargs, nkw):
+                    continue
+                out.add(t)
+                self.unresolved += 1
         for name in loads:
             for t in self.props.get(name, ()):
                 if self._cls_live(t.cls, inst):
                     out.add(t)
             # bound-method references (self.edits = self._edits_with_modifiers, key=obj.method)
-            if name.startswith("_") or name not in attrs:
+            if True:
                 for t in self.by_name.get(name, ()):
                     if self._cls_live(t.cls, inst):
                         out.add(t)
@@ -200,6 +257,30 @@ class CallGraph:
             if not work and len(inst) == size_inst and not changed:
                 break
         return reach, inst
+
+
+def arity_ok(fn, nargs, nkw):
+    """Can a method (with self) accept nargs positional + nkw keyword arguments?  None = unknown (accept)."""
+    if nargs is None:
+        return True
+    a = fn.args
+    if any(dotted(d) == "staticmethod" for d in fn.decorator_list):
+        pos = len(a.posonlyargs) + len(a.args)
+    else:
+        pos = len(a.posonlyargs) + len(a.args) - 1
+    if any(dotted(d) == "property" for d in fn.decorator_list):
+        return True
+    if a.vararg is None and nargs > pos:
+        return False
+    if nkw is not None:
+        required = pos - len(a.defaults)
+        if nargs + len(nkw) < required and a.kwarg is None:
+            return False
+        if a.kwarg is None:
+            names = {x.arg for x in a.posonlyargs + a.args + a.kwonlyargs}
+            if any(k not in names for k in nkw):
+                return False
+    return True
 
 
 def why(cg, qual, limit=12):
